@@ -97,6 +97,9 @@ def run(chk):
     cdef = prog.method("Client", "__init__").param("ignore_exc")
     for pos, kw in created:
         v = kw.get("ignore_exc", "<not passed>")
+        if v == "<not passed>" and "**" in kw:
+            r3.undecided("PooledClient._create_client:ignore_exc", "the inner clients are constructed with a `**mapping` whose content the analysis lost")
+            continue
         if v == "<not passed>":
             ok = cdef is not None and isinstance(cdef.default, ast.Constant) and cdef.default.value is False and "**" not in kw
             shown = "<Client's default %s>" % (node_src(cdef.default) if cdef is not None and cdef.default is not None else "?")
